@@ -302,6 +302,31 @@ pub fn run(ctx: &Ctx) -> i32 {
         }
         _ => unreachable!(),
     }
+    // Companion workloads: the frame judge evaluates the clauses of every decoder property on
+    // every frame, but a finding only counts in the run of its own property. So each decoder check
+    // also drives the quick-tier workloads of the other decoder properties (blank identifications,
+    // every altitude code, every identity code, ...): what one property's workload reaches is
+    // seen by all of them.
+    if ctx.prop != "C05" {
+        let own_exhaustive = exhaustive;
+        ctx.lite.store(true, std::sync::atomic::Ordering::Relaxed);
+        let before = col.counters.get("frames_judged").copied().unwrap_or(0);
+        let mut dummy = json!({});
+        type W = fn(&Ctx, &mut Collector, &mut serde_json::Value);
+        let all: [(&str, W); 9] = [("C02", c02), ("C03", c03), ("C04", c04), ("C06", c06), ("C07", c07), ("C08", c08), ("C09", c09), ("C10", c10), ("C11", c11)];
+        for (p, f) in all {
+            if p != ctx.prop {
+                f(ctx, &mut col, &mut dummy);
+            }
+        }
+        ctx.lite.store(false, std::sync::atomic::Ordering::Relaxed);
+        let after = col.counters.get("frames_judged").copied().unwrap_or(0);
+        col.count("companion_frames_judged", after - before);
+        exhaustive = own_exhaustive;
+        if let Some(o) = extra.as_object_mut() {
+            o.insert("companion_workloads".into(), json!("quick-tier workloads of C02-C04 and C06-C11 (those of the other decoder properties), judged against this property's clauses as well"));
+        }
+    }
     // Every frame these workloads generate is one the property quantifies over ("every code ...
     // decodes to ..."): a frame of a supported format and full length that the decoder refuses
     // is a violation of the property whose workload produced it, not only of C02.
